@@ -36,17 +36,29 @@ def _mkflow(tag: str, i: int, resp: bool):
     return f
 
 
-def flow_file(fdir: str, tag: str, n: int, corrupt: bool = False) -> str:
-    """A flow file with n flows /<tag>1../<tag>n (then garbage if corrupt); cached per (tag, n, corrupt)."""
-    from mitmproxy import io
+def is_tcp(i: int) -> bool:
+    return i % 3 == 2
 
-    p = os.path.join(fdir, f"{tag}{n}{'x' if corrupt else ''}.flows")
+
+def flow_file(fdir: str, tag: str, n: int, corrupt: bool = False, mixed: bool = False) -> str:
+    """A flow file with n flows /<tag>1../<tag>n (then garbage if corrupt); cached per (tag, n, corrupt, mixed).
+    mixed: flows 2, 5, .. are TCP flows (named by their comment)."""
+    from mitmproxy import io
+    from mitmproxy.test import tflow
+
+    p = os.path.join(fdir, f"{tag}{n}{'x' if corrupt else ''}{'m' if mixed else ''}.flows")
     if not os.path.exists(p):
         fd, tmp = tempfile.mkstemp(dir=fdir)
         with os.fdopen(fd, "wb") as fo:
             w = io.FlowWriter(fo)
             for i in range(1, n + 1):
-                w.add(_mkflow(tag, i, True))
+                if mixed and is_tcp(i):
+                    t = tflow.ttcpflow()
+                    t.live = False
+                    t.comment = f"{tag}{i}"
+                    w.add(t)
+                else:
+                    w.add(_mkflow(tag, i, True))
             if corrupt:
                 fo.write(b"7:garbage,12:not a flow!!")
         os.replace(tmp, p)
@@ -55,7 +67,7 @@ def flow_file(fdir: str, tag: str, n: int, corrupt: bool = False) -> str:
 
 REV = "rev.test"
 CFG0 = {"ks": False, "rk": "none", "rn": 0, "fh": "sync", "cn": 0, "conc": 1, "sn": 0, "setup": "ok", "err": "none",
-        "rs": "path", "rf": "", "mode": "regular", "rep": False}
+        "rs": "path", "rf": "", "mode": "regular", "rep": False, "rt": ""}
 
 
 def run_scenario(sc: dict, fdir: str) -> list:
@@ -94,7 +106,7 @@ def run_scenario(sc: dict, fdir: str) -> list:
         gates: list = []  # released in order by the scenario
 
         def tag(f):
-            m = re.match(r"^/([rcs])(\d+)$", f.request.path)
+            m = re.match(r"^/?([rcs])(\d+)$", f.request.path if hasattr(f, "request") else f.comment)
             return (m.group(1), int(m.group(2))) if m else ("?", 0)
 
         class Rec:
@@ -108,8 +120,10 @@ def run_scenario(sc: dict, fdir: str) -> list:
 
             def _hook(self, h, f=None):
                 s, i = tag(f) if f is not None else ("", 0)
-                host = "" if f is None else {HOST: "o", REV: "v"}.get(f.request.host, "x")
-                rec({"k": "hook", "a": self.aid, "h": h, "src": s, "i": i, "host": host})
+                http = hasattr(f, "request")
+                host = {HOST: "o", REV: "v"}.get(f.request.host, "x") if http else ""
+                rec({"k": "hook", "a": self.aid, "h": h, "src": s, "i": i, "host": host,
+                     "p": "" if f is None else "http" if http else "tcp"})
 
             def running(self):
                 self._hook("running")
@@ -133,6 +147,16 @@ def run_scenario(sc: dict, fdir: str) -> list:
                 self._hook("response", f)
 
             def error(self, f):
+                self._hook("error", f)
+
+            # TCP flows: first and last event of the flow
+            def tcp_start(self, f):
+                self._hook("request", f)
+
+            def tcp_end(self, f):
+                self._hook("response", f)
+
+            def tcp_error(self, f):
                 self._hook("error", f)
 
         class PS(proxyserver.Proxyserver):
@@ -170,7 +194,7 @@ def run_scenario(sc: dict, fdir: str) -> list:
         if cfg["rk"] == "missing":
             kw["rfile"] = os.path.join(fdir, "does-not-exist.flows")
         elif cfg["rk"] in ("ok", "corrupt"):
-            kw["rfile"] = flow_file(fdir, "r", cfg["rn"], cfg["rk"] == "corrupt")
+            kw["rfile"] = flow_file(fdir, "r", cfg["rn"], cfg["rk"] == "corrupt", cfg["rt"] == "mixed")
             if cfg["rs"] == "stdin":  # mitmdump -r - < file
 
                 class Stdin:
@@ -207,8 +231,8 @@ def run_scenario(sc: dict, fdir: str) -> list:
                 return (type(e).__name__, 0)
             return ("returned", 0)
 
-        def do(op):
-            r = {"k": "op", "op": op, "ok": True}
+        def do(op, inner=False):
+            r = {"k": "op", "op": op, "ok": True, "b": inner}  # b: inside a burst (the loop has not run since)
             rec(r)
             r["ok"] = act(op)
 
@@ -259,6 +283,8 @@ def run_scenario(sc: dict, fdir: str) -> list:
                     raise RuntimeError("unhandled")
 
                 loop.call_soon(boom)
+            elif op == "crash_msg":  # asyncio reports a problem without an exception object
+                loop.call_soon(loop.call_exception_handler, {"message": "something went wrong in a transport"})
             elif op == "tick":
                 pass
             else:
@@ -303,12 +329,12 @@ def run_scenario(sc: dict, fdir: str) -> list:
                 if st["exited"]:
                     break
                 if isinstance(op, list):  # ["burst", [..]]: several environment actions before the loop runs again
-                    rec({"k": "op", "op": "burst"})
+                    rec({"k": "op", "op": "burst", "ok": True, "b": False})
                     for o in op[1]:
                         if o != "conn_req" and o != "tick":
-                            do(o)
+                            do(o, True)
                 elif op == "conn_req":
-                    rec({"k": "op", "op": op, "ok": bool(st["conns"])})
+                    rec({"k": "op", "op": op, "ok": bool(st["conns"]), "b": False})
                     await conn_req()
                 else:
                     do(op)
@@ -359,7 +385,7 @@ def run_scenario(sc: dict, fdir: str) -> list:
 
 ALL_FEAT = ("setup", "shutdown", "cancel", "logerr", "crash", "tick", "release", "dial", "respond", "conn")
 ACTION_OPS = {"Start": "start", "SetupOk": "setup_ok", "SetupFail": "setup_fail", "Shutdown": "shutdown", "Cancel": "cancel",
-              "LogErr": "logerr", "Crash": "crash", "Tick": "tick", "Release": "release", "DialOk": "dial_ok",
+              "LogErr": "logerr", "Crash": "crash", "CrashMsg": "crash_msg", "Tick": "tick", "Release": "release", "DialOk": "dial_ok",
               "DialFail": "dial_fail", "Respond": "respond", "ConnOpen": "conn_open", "ConnReq": "conn_req",
               "ConnClose": "conn_close"}
 
@@ -371,7 +397,7 @@ def C(maxops, feat, **kw):
 
 def cfgs(tier):
     """Scenario classes of the model (one family of initial states each)."""
-    d = 0 if tier == "quick" else 1
+    d = 0 if tier == "quick" else 2
     out = [
         # nothing to wait for / keepserving: the master stays up until it is told to stop
         C(4 + d, ("tick", "shutdown", "cancel", "logerr", "crash")),
@@ -390,6 +416,10 @@ def cfgs(tier):
         C(5 + d, ("tick", "release", "shutdown"), rk="ok", rn=3, rf="odd", fh="gate", mode="reverse"),
         C(4 + d, ("tick", "release"), rk="corrupt", rn=2, rf="odd", fh="gate", mode="two", rs="stdin"),
         C(2, ("tick",), rk="ok", rn=2, mode="two"),
+        # a file with HTTP and TCP flows (2nd and 5th are TCP)
+        C(3, ("tick",), rk="ok", rn=3, rt="mixed", mode="reverse"),
+        C(5 + d, ("tick", "release", "shutdown"), rk="ok", rn=5, rt="mixed", fh="gate"),
+        C(4 + d, ("tick", "release"), rk="corrupt", rn=2, rt="mixed", fh="gate", rf="odd"),
         # startup: slow / failing server setup, errors before and during running
         C(5 + d, ("setup", "tick", "logerr", "crash", "shutdown", "cancel"), setup="slow", rk="ok", rn=1),
         C(4 + d, ("setup", "tick", "shutdown"), setup="slow", ks=True, cn=1),
@@ -424,7 +454,7 @@ class Check(core.PropertyCheck):
         "kept_serving", "nothing_to_wait_for_keeps_running", "error_after_startup", "flow_before_own_running",
         "served_from_recording", "request_not_from_recording", "flow_hook_after_startup_r", "flow_hook_after_startup_c",
         "read_skipped_filtered_flow", "read_in_reverse_mode", "read_from_stdin", "startup_errors_repeated",
-        "error_logged_by_code", "done_phase_over")
+        "error_logged_by_code", "done_phase_over", "read_tcp_flow")
     REQUIRED_ACTIONS = tuple(ACTION_OPS) + ("End",)
     ASSUMPTIONS = (
         "virtual-time asyncio loop (timers fire 1 ms late, never early) and fake network; real sockets, signals, "
@@ -519,13 +549,14 @@ def random_scenario(rng: random.Random) -> dict:
     if cfg["rk"] in ("ok", "corrupt"):
         cfg["rs"] = rng.choice(["path", "path", "stdin"])
         cfg["rf"] = rng.choice(["", "", "odd"])
+        cfg["rt"] = rng.choice(["", "", "mixed"])
     cfg["mode"] = rng.choice(["regular", "regular", "reverse", "two"])
     cfg["rep"] = rng.random() < 0.3
     cfg["setup"] = rng.choice(["ok", "ok", "ok", "slow", "slow", "fail"] if rng.random() < 0.5 else ["ok"])
     cfg["err"] = rng.choice(["none"] * 8 + ["pre", "running"])
     weights = {"tick": 6, "release": 3 if cfg["fh"] == "gate" else 0, "dial_ok": 3 if cfg["cn"] else 0,
                "dial_fail": 1 if cfg["cn"] else 0, "respond": 3 if cfg["cn"] else 0, "conn_open": 1.5, "conn_req": 2,
-               "conn_close": 1.5, "logerr": 0.4, "crash": 0.4, "shutdown": 0.35, "cancel": 0.15,
+               "conn_close": 1.5, "logerr": 0.4, "crash": 0.3, "crash_msg": 0.2, "shutdown": 0.35, "cancel": 0.15,
                "setup_ok": 2 if cfg["setup"] == "slow" else 0, "setup_fail": 0.5 if cfg["setup"] == "slow" else 0}
     names = [k for k, w in weights.items() if w > 0]
     ws = [weights[k] for k in names]
